@@ -26,15 +26,16 @@ WordsOfLen(n) == IF n = 0 THEN {<<>>} ELSE {w \o <<a>> : w \in WordsOfLen(n - 1)
 Words == UNION {WordsOfLen(n) : n \in 0 .. MaxLen}
 Inputs == {T \in SUBSET Words : T # {} /\ Cardinality(T) <= MaxSize}
 
-Cfgs == {[DefaultCfg EXCEPT !.nostart = a, !.noend = b] : a, b \in BOOLEAN}
+CONSTANT WithRep    \* TRUE: also explore repetition conversion (S5) - the known widening then excuses exactness
+Cfgs == {[DefaultCfg EXCEPT !.nostart = a, !.noend = b, !.rep = r] : a, b \in BOOLEAN, r \in (IF WithRep THEN BOOLEAN ELSE {FALSE})}
 
-VARIABLES pc, T, cfg, tcs, trie, min, e1, final, out,
+VARIABLES pc, T, cfg, tcs, cls, trie, min, e1, final, out,
           ord, A, B, n      \* state elimination: DFS order, equation system, next state to eliminate
-vars == <<pc, T, cfg, tcs, trie, min, e1, final, out, ord, A, B, n>>
+vars == <<pc, T, cfg, tcs, cls, trie, min, e1, final, out, ord, A, B, n>>
 elim == <<ord, A, B, n>>
 
 NoG == [n |-> 1, es |-> <<>>, fin |-> {}, alpha |-> {}, init |-> 0]
-Init == /\ pc = "input" /\ T = {} /\ cfg = DefaultCfg /\ tcs = <<>>
+Init == /\ pc = "input" /\ T = {} /\ cfg = DefaultCfg /\ tcs = <<>> /\ cls = <<>>
         /\ trie = NoG /\ min = NoG /\ e1 = XNone /\ final = XNone /\ out = ""
         /\ ord = <<>> /\ A = <<>> /\ B = <<>> /\ n = 0
 
@@ -42,34 +43,38 @@ DoChoose == /\ pc = "input"
           /\ (IF Sampled
               THEN \E c \in Cfgs : (cfg' = c /\ T' = RandomSubset(RandomElement(1 .. MaxSize), Words))
               ELSE \E t \in Inputs, c \in Cfgs : (T' = t /\ cfg' = c))
-          /\ pc' = "sort" /\ UNCHANGED <<tcs, trie, min, e1, final, out, elim>>
+          /\ pc' = "sort" /\ UNCHANGED <<tcs, cls, trie, min, e1, final, out, elim>>
 DoSort == /\ pc = "sort" /\ tcs' = SortTcs(T)
-        /\ pc' = "trie" /\ UNCHANGED <<T, cfg, trie, min, e1, final, out, elim>>
+          /\ pc' = "clusters" /\ UNCHANGED <<T, cfg, cls, trie, min, e1, final, out, elim>>
+(* S3 + S5: one symbol per character, then the greedy repetition conversion if requested *)
+DoClusters == /\ pc = "clusters"
+              /\ cls' = [i \in DOMAIN tcs |-> IF cfg.rep THEN RepConvert(PlainCluster(tcs[i]), cfg) ELSE PlainCluster(tcs[i])]
+              /\ pc' = "trie" /\ UNCHANGED <<T, cfg, tcs, trie, min, e1, final, out, elim>>
 DoTrie == /\ pc = "trie"
-        /\ trie' = [BuildTrie([i \in DOMAIN tcs |-> PlainCluster(tcs[i])], Dev) EXCEPT !.fin = @] @@ [init |-> 0]
-        /\ pc' = "min" /\ UNCHANGED <<T, cfg, tcs, min, e1, final, out, elim>>
+          /\ trie' = BuildTrie(cls, Dev) @@ [init |-> 0]
+          /\ pc' = "min" /\ UNCHANGED <<T, cfg, tcs, cls, min, e1, final, out, elim>>
 DoMin == /\ pc = "min" /\ min' = Minimize(trie, Dev)
-         /\ pc' = "elim-init" /\ UNCHANGED <<T, cfg, tcs, trie, e1, final, out, elim>>
+         /\ pc' = "elim-init" /\ UNCHANGED <<T, cfg, tcs, cls, trie, e1, final, out, elim>>
 (* S9 one action per eliminated state *)
 DoElimInit == /\ pc = "elim-init"
               /\ ord' = DfsOrder(min, min.init)
               /\ A' = InitA(min, ord') /\ B' = InitB(min, ord') /\ n' = Len(ord')
-              /\ pc' = "elim" /\ UNCHANGED <<T, cfg, tcs, trie, min, e1, final, out>>
+              /\ pc' = "elim" /\ UNCHANGED <<T, cfg, tcs, cls, trie, min, e1, final, out>>
 DoElimStep == /\ pc = "elim" /\ n > 0
               /\ LET r == ElimOne(A, B, n) IN A' = r.A /\ B' = r.B
               /\ n' = n - 1
-              /\ UNCHANGED <<pc, T, cfg, tcs, trie, min, e1, final, out, ord>>
+              /\ UNCHANGED <<pc, T, cfg, tcs, cls, trie, min, e1, final, out, ord>>
 DoEliminate == /\ pc = "elim" /\ n = 0
                /\ e1' = (IF XIsNone(B[1]) THEN XLit(<<>>) ELSE B[1])
-               /\ pc' = "check" /\ UNCHANGED <<T, cfg, tcs, trie, min, final, out, elim>>
+               /\ pc' = "check" /\ UNCHANGED <<T, cfg, tcs, cls, trie, min, final, out, elim>>
 DoCheck == /\ pc = "check"
          /\ final' = (IF ~cfg.noend \/ WholeFound(e1, tcs) THEN e1
                       ELSE LET e2 == ToExpr(trie, 0) IN
-                           IF WholeFound(e2, tcs) THEN e2 ELSE FallbackAlt(tcs))
-         /\ pc' = "print" /\ UNCHANGED <<T, cfg, tcs, trie, min, e1, out, elim>>
+                           IF WholeFound(e2, tcs) THEN e2 ELSE FallbackAltCl(tcs, cls))
+         /\ pc' = "print" /\ UNCHANGED <<T, cfg, tcs, cls, trie, min, e1, out, elim>>
 DoPrint == /\ pc = "print" /\ out' = PrintRegex(final, cfg)
-         /\ pc' = "done" /\ UNCHANGED <<T, cfg, tcs, trie, min, e1, final, elim>>
-Next == DoChoose \/ DoSort \/ DoTrie \/ DoMin \/ DoElimInit \/ DoElimStep \/ DoEliminate \/ DoCheck \/ DoPrint
+         /\ pc' = "done" /\ UNCHANGED <<T, cfg, tcs, cls, trie, min, e1, final, elim>>
+Next == DoChoose \/ DoSort \/ DoClusters \/ DoTrie \/ DoMin \/ DoElimInit \/ DoElimStep \/ DoEliminate \/ DoCheck \/ DoPrint
 Spec == Init /\ [][Next]_vars
 
 (***************************************************************************)
@@ -80,16 +85,24 @@ ModEps(L) == IF DevFinals THEN L \ {<<>>} ELSE L
 TrieG == AsGraph(trie, 0)
 MinG == AsGraph(min, min.init)
 
-SortInv == After({"trie", "min", "elim-init", "elim", "check", "print", "done"}) =>
+SortInv == After({"clusters", "trie", "min", "elim-init", "elim", "check", "print", "done"}) =>
              /\ ToSet(tcs) = T /\ Len(tcs) = Cardinality(T)
              /\ \A i \in 1 .. Len(tcs) - 1 : TcLess(tcs[i], tcs[i + 1])
+(* the recorded widening defect (D2): an edge label became a range *)
+Widened == \E i \in DOMAIN trie.es : trie.es[i].sym.lo # trie.es[i].sym.hi
+ClusterInv == After({"trie", "min", "elim-init", "elim", "check", "print", "done"}) =>
+             /\ Len(cls) = Len(tcs)
+             /\ \A i \in DOMAIN cls : SymsLang(cls[i]) = {tcs[i]} /\ ClusterThresholdsOk(cls[i], cfg)
+                                        /\ \A j \in DOMAIN cls[i] : NestOk(cls[i][j])
 TrieInv == After({"min", "elim-init", "elim", "check", "print", "done"}) =>
-             Acyclic(TrieG) /\ GraphLang(TrieG) = T
+             /\ Acyclic(TrieG) /\ T \subseteq GraphLang(TrieG)
+             /\ (Widened \/ GraphLang(TrieG) = T)
+             /\ (Widened => cfg.rep)
 MinInv == After({"elim-init", "elim", "check", "print", "done"}) =>
              /\ Acyclic(MinG)
-             /\ ModEps(GraphLang(MinG)) = ModEps(T)
-             /\ (DevFinals \/ GraphLang(MinG) = T)
-             /\ DeterministicSym(MinG) /\ MinimalSym(MinG) /\ MinimalSymByLang(MinG)
+             /\ ModEps(GraphLang(MinG)) = ModEps(GraphLang(TrieG))
+             /\ (DevFinals \/ GraphLang(MinG) = GraphLang(TrieG))
+             /\ (cfg.rep \/ (DeterministicSym(MinG) /\ MinimalSym(MinG) /\ MinimalSymByLang(MinG)))
 (* Arden's system stays equivalent while states are eliminated: for every surviving row i <= n the    *)
 (* right language of state ord[i] is  B[i] + sum over j <= n of A[i][j] . RightLang(ord[j])          *)
 ElimStepInv == pc = "elim" =>
@@ -99,9 +112,12 @@ ElimStepInv == pc = "elim" =>
 ElimInv == After({"check", "print", "done"}) =>
              ModEps(LangOf(XToLang(e1))) = ModEps(GraphLang(MinG))
 FinalInv == After({"print", "done"}) =>
-             /\ ModEps(LangOf(XToLang(final))) = ModEps(T)                           \* C02 / C16
+             \* C02 / C16 / C05: exactly the test cases - or, where an edge was widened (D2), the trie's language
+             \* (the last-resort alternation of the self-check is exact even then)
+             /\ \/ ModEps(LangOf(XToLang(final))) = ModEps(T)
+                \/ (Widened /\ ModEps(LangOf(XToLang(final))) = ModEps(GraphLang(TrieG)))
              /\ \A i \in DOMAIN tcs : tcs[i] = <<>> \/ tcs[i] \in LangOf(XToLang(final)) \* C01
-             /\ (DevFinals \/ LangOf(XToLang(final)) = T)
+             /\ (DevFinals \/ LangOf(XToLang(final)) = T \/ (Widened /\ LangOf(XToLang(final)) = GraphLang(TrieG)))
 (* C08: with an anchor disabled a search returns the whole test case (leftmost-first semantics) *)
 FullAst == [t |-> "cat", xs |-> (IF cfg.nostart THEN <<>> ELSE <<[t |-> "bol"]>>)
                                 \o <<XToLang(final)>>
@@ -118,5 +134,5 @@ SymbolicInv == After({"print", "done"}) =>
 WordStr(w) == Join([i \in DOMAIN w |-> Letters[w[i]]])
 Replay == pc = "done" =>
             PrintT(ToJson([replay |-> "pipeline", tcs |-> [i \in DOMAIN tcs |-> WordStr(tcs[i])],
-                           nostart |-> cfg.nostart, noend |-> cfg.noend, out |-> out]))
+                           nostart |-> cfg.nostart, noend |-> cfg.noend, rep |-> cfg.rep, out |-> out]))
 =============================================================================
